@@ -212,6 +212,12 @@ func cmdCheck(args []string) int {
 			failedFn[v.Fn.Key] = true
 		}
 	}
+	kfFails, kfPrinted := map[string]bool{}, map[string]bool{}
+	for _, v := range vs {
+		if v.Status != "unsat" && !v.Obl.Smoke && !v.Obl.Canary {
+			kfFails[stableName(v.Obl.Name)] = true
+		}
+	}
 	for _, v := range vs {
 		o := v.Obl
 		solverTime += v.Time
@@ -232,13 +238,23 @@ func cmdCheck(args []string) int {
 		ef := perFn[v.Fn.Key]
 		kf := matchKnown(known, prop, o.Name)
 		if kf != nil && kf.Status == "finding" {
-			nKnown++
+			// a finding is listed by its stable obligation name; the obligation may be generated once per return
+			// of the function and fail at some of them only: one KNOWN-FINDING line per name, the instances that
+			// discharge count as ordinary discharged obligations, and the "no longer fails" note appears only when
+			// no instance fails any more
+			sn := stableName(o.Name)
 			if v.Status != "unsat" {
-				fmt.Printf("KNOWN-FINDING: property=%s %s: %s\n", prop, stableName(o.Name), kf.What)
-			} else {
-				fmt.Printf("note: known finding %s now discharges; remove it from known_findings.json\n", stableName(o.Name))
+				nKnown++
+				if !kfPrinted[sn] {
+					kfPrinted[sn] = true
+					fmt.Printf("KNOWN-FINDING: property=%s %s: %s\n", prop, sn, kf.What)
+				}
+				continue
 			}
-			continue
+			if !kfFails[sn] && !kfPrinted[sn] {
+				kfPrinted[sn] = true
+				fmt.Printf("note: known finding %s no longer fails at any return; remove it from known_findings.json\n", sn)
+			}
 		}
 		nObl++
 		ef.Obligations++
